@@ -29,6 +29,21 @@ var commonTrusted = []string{
 }
 
 var props = map[string]*PropSpec{
+	"C19": {
+		ID:        "C19",
+		Cone:      []ConeItem{{Pkg: "internal/modm"}},
+		Quick:     twoLayouts,
+		Thorough:  []string{"default", "force32bit", "386"},
+		Technique: "contract-based deductive verification: VCs over go/ssa of the real functions, discharged by z3/cvc5, an exact polynomial normaliser and a linear-form interval back end",
+		Trusted: []string{
+			"ContractSlidingWindow: only the bit expansion, memory safety and the frame are proved of the body; the digit property of its second phase (digits odd or zero, |digit| < 2^(w-1), weighted sum = scalar for scalars < 2^253) is an explicit assumption (assume-ensures) for its callers",
+			"termination is not proved",
+		},
+		Assumptions: []string{
+			"modm.Mul on the 30-bit layout is specified for x[8] < 2^13 (x < 2^253): q1[8] keeps only 22 of the top 24 bits of x*y, so the function is exact only for x*y < 2^510; every caller in the module passes a reduced first operand (call-site obligations under C02/C06)",
+			"ContractWindow4 is specified for scalars below 2^255 (top limb bound), which is what its callers supply",
+		},
+	},
 	"C18": {
 		ID:        "C18",
 		Cone:      []ConeItem{{Pkg: "internal/curve25519"}},
